@@ -4,6 +4,7 @@ import (
 	"context"
 	"fmt"
 	"strings"
+	"time"
 
 	"github.com/jhump/grpctunnel"
 	"github.com/jhump/grpctunnel/tunnelpb"
@@ -384,6 +385,71 @@ func c16Scenarios(tier string) []*Scenario {
 				})
 			}
 		}
+	}
+	// (d) a first response send that FAILS half-way (deadline while parked on a small window) must
+	// still count: the retry is refused and no second envelope reaches the wire
+	for _, method := range []string{"Unary", "ClientStream"} {
+		method := method
+		scs = append(scs, &Scenario{
+			Name: "c16/d/retry-after-failed-send/" + method, Prop: "C16",
+			Desc: "raw client opens a " + method + " stream with a 10-byte response window and grpc-timeout 300m, sends its request and half-closes; the handler's 200-byte response parks on the window, the deadline passes (the send fails), the peer then grants credit and the handler sends again",
+			Opt:  Options{Level: "io", Bound: bound - 1, Horizon: 4},
+			Run: func(w *World) {
+				h := grpctunnel.NewTunnelServiceHandler(grpctunnel.TunnelServiceHandlerOptions{})
+				h.RegisterService(&TestSvcDesc, &TestServer{W: w, Name: "fwd"})
+				n := NewNet(w, "T")
+				tunnelpb.RegisterTunnelServiceServer(n, h.Service())
+				w.Scripts["s1"] = &HandlerScript{ID: "s1", Tag: 1, KeepGoing: true, Ops: []HOp{{K: "recvall"}, {K: "send", Size: 200}, {K: "sleep", D: 2 * time.Second}, {K: "send", Size: 3}, {K: "return"}}}
+				rc, err := w.OpenRawClient(n, true)
+				if err != nil {
+					return
+				}
+				w.Vals["rc"] = rc
+				w.GoLow("fault:hangup", func() {
+					w.WaitUntil("hangup", func() bool { return true })
+					w.Vals["hangup"] = true
+				})
+				peer := w.GoPeer("rawclient", func() {
+					f := fNew(1, "/verif.T/"+method, 1, 10, "s1")
+					f.GetNewStream().RequestHeaders.Md["grpc-timeout"] = &tunnelpb.Metadata_Values{Val: []string{"300m"}}
+					_ = rc.Send(f)
+					b := msgBytes(1, 0, 0, 12)
+					_ = rc.Send(fReq(1, uint32(len(b)), b))
+					_ = rc.Send(fHalf(1))
+					w.Sleep(1500 * time.Millisecond)
+					_ = rc.Send(fWinC(1, 1000))
+					w.WaitUntil("raw:settled", func() bool { return len(rc.CloseOf(1)) > 0 || w.Vals["hangup"] != nil || rc.Done })
+					rc.Finish()
+				})
+				w.Join(peer)
+				w.Drain()
+			},
+			Check: func(w *World, x *Exec) []Violation {
+				vs := NoHang(x, "C16")
+				if x.Hang {
+					return vs
+				}
+				firstFailed := false
+				for _, e := range w.EventsOf("handler:s1") {
+					if e.Op == "send" && e.Idx == 0 && !e.OK() {
+						firstFailed = true
+					}
+					if e.Op == "send" && e.Idx >= 1 && e.OK() && firstFailed {
+						vs = append(vs, Violation{Prop: "C16", Rule: "second-send-refused", Sig: "shape:retry-after-failed-send-accepted:" + method, Detail: "the handler's first response send failed half-way, its second SendMsg returned nil\n" + w.Outcome()})
+					}
+				}
+				env := 0
+				for _, f := range w.Tap.Frames {
+					if m, ok := f.Msg.(*tunnelpb.ServerToClient); ok && m.GetResponseMessage() != nil {
+						env++
+					}
+				}
+				if env > 1 {
+					vs = append(vs, Violation{Prop: "C16", Rule: "second-send-not-on-wire", Sig: "shape:second-message-on-wire:" + method, Detail: fmt.Sprintf("%d response envelopes on the wire of a method with a single response\n%s", env, w.Outcome())})
+				}
+				return vs
+			},
+		})
 	}
 	return scs
 }
